@@ -335,6 +335,20 @@ Rewrites(ns) ==
                               [Mk("F", 0, "s", "", "", <<>>, <<>>, "", Roots.query) EXCEPT !.parent = 3],
                               Mk("FRAG", 0, "VU", "", Roots.query, <<>>, <<>>, "", ""),
                               [Mk("F", 0, "f", "", "", <<Arg("a", LitVar("zz"))>>, <<>>, "", Roots.query) EXCEPT !.parent = 5] >>))}
+  \* two operations sharing fragments only partially: the first spreads VA (uses $zz) and VB (uses $yy), the second spreads
+  \* VA only but declares both variables - its $yy is unused, although a fragment of the document uses a variable of that name
+  \cup {RW("all-variables-used", "variable-used-only-by-a-fragment-of-another-operation",
+           AppendNodes(ns, << [Mk("OP", 0, "BothOp", "", "", <<>>, <<>>, "query", "") EXCEPT !.vdefs = <<[name |-> "zz", type |-> <<"Int">>, hasDefault |-> FALSE, default |-> NoLit],
+                                                                                                      [name |-> "yy", type |-> <<"Int">>, hasDefault |-> FALSE, default |-> NoLit]>>],
+                              [Mk("S", 0, "VA", "", "", <<>>, <<>>, "", Roots.query) EXCEPT !.parent = 1],
+                              [Mk("S", 0, "VB", "", "", <<>>, <<>>, "", Roots.query) EXCEPT !.parent = 1],
+                              [Mk("OP", 0, "OneOp", "", "", <<>>, <<>>, "query", "") EXCEPT !.vdefs = <<[name |-> "zz", type |-> <<"Int">>, hasDefault |-> FALSE, default |-> NoLit],
+                                                                                                     [name |-> "yy", type |-> <<"Int">>, hasDefault |-> FALSE, default |-> NoLit]>>],
+                              [Mk("S", 0, "VA", "", "", <<>>, <<>>, "", Roots.query) EXCEPT !.parent = 4],
+                              Mk("FRAG", 0, "VA", "", Roots.query, <<>>, <<>>, "", ""),
+                              [Mk("F", 0, "f", "", "", <<Arg("a", LitVar("zz"))>>, <<>>, "", Roots.query) EXCEPT !.parent = 6],
+                              Mk("FRAG", 0, "VB", "", Roots.query, <<>>, <<>>, "", ""),
+                              [Mk("F", 0, "f", "", "", <<Arg("a", LitVar("yy"))>>, <<>>, "", Roots.query) EXCEPT !.parent = 8] >>))}
   \* the disallowed / undefined usage sits in a fragment reached only through another fragment
   \cup {RW(r, "fragment-spread-by-a-fragment",
            AppendNodes(ns, << [Mk("OP", 0, "DeepOp", "", "", <<>>, <<>>, "query", "") EXCEPT !.vdefs = IF r = "all-variable-uses-defined" THEN <<>> ELSE <<[name |-> "zz", type |-> <<"String">>, hasDefault |-> FALSE, default |-> NoLit]>>],
